@@ -226,7 +226,10 @@ type c19Seen struct {
 }
 
 // c19Run: streams is nil for the seeded search, or the prepared sweep input.
-func c19Run(e *Env, wide bool, sw *c19SweepCase) {
+func c19Run(e *Env, wide bool, sw *c19SweepCase) { c19RunX(e, wide, sw, false) }
+
+// c19RunX: with park set, handlers park until the engine releases them (C08 on an association).
+func c19RunX(e *Env, wide bool, sw *c19SweepCase, park bool) {
 	t := e.T
 	e.TrustWait = false // writes may be stalled inside the association with other writers queued behind them
 	e.maxStep = 400
@@ -245,8 +248,34 @@ func c19Run(e *Env, wide bool, sw *c19SweepCase) {
 	deferPlan := make([]bool, 7)
 	plan := map[string]uint32{} // marker -> result code to answer with
 	mux := diam.NewServeMux()
+	var gates []chan struct{}
+	active := 0
+	overlap := false
+	parkPlan := make([]bool, 5)
+	if park {
+		for i := range parkPlan {
+			parkPlan[i] = t.Chance(1, 2)
+		}
+	}
 	mux.HandleFunc("ALL", func(c diam.Conn, m *diam.Message) {
 		raw, _ := m.Serialize()
+		mu.Lock()
+		if active > 0 {
+			overlap = true
+		}
+		active++
+		var gate chan struct{}
+		if park && parkPlan[len(seen)%len(parkPlan)] {
+			gate = make(chan struct{})
+			gates = append(gates, gate)
+			e.ParkBegin(true)
+		}
+		mu.Unlock()
+		if gate != nil {
+			e.Probe("sctp-handler-parked")
+			<-gate
+		}
+		defer func() { mu.Lock(); active--; mu.Unlock() }()
 		mu.Lock()
 		seen = append(seen, c19Seen{m.MessageStream(), raw})
 		var rc uint32 = 2001
@@ -454,7 +483,10 @@ func c19Run(e *Env, wide bool, sw *c19SweepCase) {
 				partial = true
 			}
 		}
-		if be.Queued() == 0 && !partial {
+		mu.Lock()
+		held := len(gates) > 0
+		mu.Unlock()
+		if be.Queued() == 0 && !partial && !held {
 			for si, ms := range streams {
 				complete := 0
 				off := 0
@@ -570,6 +602,26 @@ func c19Run(e *Env, wide bool, sw *c19SweepCase) {
 		}
 		e.Act("feed", "%d chunk(s), %d stream(s)", k, len(buffered))
 		e.Quiesce()
+		if park {
+			mu.Lock()
+			ov := overlap
+			var g chan struct{}
+			if len(gates) > 0 && t.Chance(1, 2) {
+				g = gates[0]
+				gates = gates[1:]
+				e.ParkEnd(true)
+			}
+			mu.Unlock()
+			if ov {
+				e.Fail("C08/overlap/sctp", "a handler was entered on the association while the handler for the previous message had not returned")
+				break
+			}
+			if g != nil {
+				close(g)
+				e.Act("release", "")
+				e.Quiesce()
+			}
+		}
 		if sw == nil && t.Chance(1, 2) {
 			if t.Chance(1, 3) {
 				flushConcurrent()
@@ -584,6 +636,27 @@ func c19Run(e *Env, wide bool, sw *c19SweepCase) {
 			break
 		}
 	}
+	releaseAll := func() {
+		for r := 0; r < 50; r++ {
+			mu.Lock()
+			gs := gates
+			gates = nil
+			for range gs {
+				e.ParkEnd(true)
+			}
+			mu.Unlock()
+			if len(gs) == 0 {
+				return
+			}
+			for _, g := range gs {
+				close(g)
+			}
+			e.Quiesce()
+		}
+	}
+	if park {
+		defer releaseAll()
+	}
 	if !e.Failed() {
 		for pos < len(order) {
 			si := order[pos]
@@ -594,7 +667,13 @@ func c19Run(e *Env, wide bool, sw *c19SweepCase) {
 			pos++
 		}
 		e.Quiesce()
-		if be.IsClosed() {
+		releaseAll()
+		mu.Lock()
+		ov := overlap
+		mu.Unlock()
+		if ov {
+			e.Fail("C08/overlap/sctp", "a handler was entered on the association while the handler for the previous message had not returned")
+		} else if be.IsClosed() {
 			e.Fail("C19/association-dropped", "the library closed the association while reading valid interleaved data")
 		} else {
 			check(true)
